@@ -8,7 +8,7 @@ VARIABLES ci, ei, st, nj, ns, ne
 Mats == << << <<1,0,0>>, <<0,1,0>>, <<0,0,1>> >>, << <<0,-1,0>>, <<1,0,0>>, <<0,0,1>> >>, << <<0,0,1>>, <<1,0,0>>, <<0,1,0>> >>,
            << <<-1,0,0>>, <<0,-1,0>>, <<0,0,1>> >>, << <<1,0,0>>, <<0,0,-1>>, <<0,1,0>> >>, << <<0,1,0>>, <<0,0,1>>, <<1,0,0>> >> >>
 InitState(c) == [g |-> [P |-> c.given.P, F |-> c.given.F, E |-> c.given.E, C |-> c.given.C],
-                 D |-> Derive(c.given.F, Len(c.given.P), c.given.E), fam |-> c.given.family, moved |-> "still", ncalls |-> [n \in {} |-> 0]]
+                 D |-> Derive(c.given.F, Len(c.given.P), c.given.E), fam |-> c.given.family, moved |-> "still", stored |-> FALSE, ncalls |-> [n \in {} |-> 0]]
 NV(s) == Len(s.g.P)
 Each(n, f(_)) == [i \in 1..n |-> f(i)]
 SqOf(x) == R(x)
@@ -65,11 +65,11 @@ Expected(s, e) ==        \* the sequence of expected surrogates, or NA
 Judge(c, s, e) ==
   IF e.op = "transform" THEN
        IF e.exc # "" THEN Bad("transform_succeeds", s.fam, e.exc, s)
-       ELSE Ok([s EXCEPT !.g = Motion(s.g, Mats[e.mi], e.s, e.t), !.moved = "moved"])
+       ELSE Ok([s EXCEPT !.g = Motion(s.g, Mats[e.mi], e.s, e.t), !.moved = IF s.stored THEN "moved" ELSE s.moved])     \* only attributes stored BEFORE a move can be stale after it
   ELSE LET av == Avail(s, e)
            want == Expected(s, e)
            again == IF e.name \in DOMAIN s.ncalls THEN s.ncalls[e.name] ELSE 0
-           nxt == [s EXCEPT !.ncalls = (e.name :> again + 1) @@ s.ncalls]
+           nxt == [s EXCEPT !.ncalls = (e.name :> again + 1) @@ s.ncalls, !.stored = s.stored \/ e.persistent = 1]
            cls == e.name \o (IF e.mode # "" THEN "/" \o e.mode ELSE "") \o (IF e.persistent = 1 THEN "/persistent" ELSE "")
                   \o (IF again > 0 THEN "/computed_again" ELSE "") \o (IF s.moved = "moved" THEN "/after_transform" ELSE "")
        IN IF av = "na" THEN Skip(nxt)
